@@ -145,8 +145,8 @@ def stack_placements(rng, n=10):
         origin = np.array([60.0 * k, 0.0, 0.0])
         ca, cb = cen(ra), R @ cen(rb)
 
-        def place(r, Rm, t, chain, number):
-            lab = dataclasses.replace(r.auth, chain=chain, number=number, icode=None) if r.auth is not None else None
+        def place(r, Rm, t, chain, number, icode=None, auth_number=None):
+            lab = dataclasses.replace(r.auth, chain=chain, number=number if auth_number is None else auth_number, icode=icode) if r.auth is not None else None
             lbl = dataclasses.replace(r.label, chain=chain, number=number) if r.label is not None else None
             atoms = []
             for a in r.atoms:
@@ -236,14 +236,20 @@ def pair_placements(rng, n=10, plan=None):
         D = hi
         origin = np.array([60.0 * k, 0.0, 0.0])
 
-        def place(r, Rm, t, chain, number):
-            lab = dataclasses.replace(r.auth, chain=chain, number=number, icode=None) if r.auth is not None else None
+        def place(r, Rm, t, chain, number, icode=None, auth_number=None):
+            lab = dataclasses.replace(r.auth, chain=chain, number=number if auth_number is None else auth_number, icode=icode) if r.auth is not None else None
             lbl = dataclasses.replace(r.label, chain=chain, number=number) if r.label is not None else None
             atoms = []
             for a in r.atoms:
                 q = Rm @ np.array([a.x, a.y, a.z]) + t
                 atoms.append(dataclasses.replace(a, x=geo.snap(float(q[0])), y=geo.snap(float(q[1])), z=geo.snap(float(q[2])), label=lbl, auth=lab))
             return dataclasses.replace(r, atoms=tuple(atoms), auth=lab, label=lbl)
+        if k % 3 == 2:
+            # insertion-code siblings: the two partners share chain and author number and differ by insertion code only
+            # (47A/47B of a tRNA variable arm); their label numbers stay distinct, as in a deposited file
+            residues.append(place(ra, np.eye(3), origin - ca, "A", 2 * k + 1, "A", 2 * k + 1))
+            residues.append(place(rb, R, origin + D * direction - cb0, "A", 2 * k + 2, "B", 2 * k + 1))
+            continue
         residues.append(place(ra, np.eye(3), origin - ca, "A", 2 * k + 1))
         residues.append(place(rb, R, origin + D * direction - cb0, "B", 2 * k + 2))
     return Structure3D(residues)
